@@ -1,5 +1,5 @@
 (** * C03 -- the dagger of every operator is its inverse *)
-From QV Require Import Spec Expr ScalarR C03T.
+From QV Require Import Spec Expr ScalarR C03T C03T2.
 
 Theorem C03_product : C03_product_stmt.
 Proof. exact C03_product_proof. Qed.
@@ -12,3 +12,7 @@ Print Assumptions C03_inverse.
 Theorem C03_atomic : C03_atomic_stmt.
 Proof. exact C03_atomic_proof. Qed.
 Print Assumptions C03_atomic.
+
+Theorem C03_circuit : C03_circuit_stmt.
+Proof. exact C03_circuit_proof. Qed.
+Print Assumptions C03_circuit.
